@@ -100,7 +100,9 @@ def execute(cases_, tier, seed):
                                                 expected="T: Debug + Clone + Serialize + DeserializeOwned + From<&T> (+ Copy/Eq/Ord/Hash where promised)",
                                                 observed=a_errs[:5], features=feats, items=sorted({e["msg"][:120] for e in a_errs})))
             # only errors that arise inside the expansion of a #[derive(..)] the generated code carries (other type errors are C01's)
-            derive_errs = [e for e in m_errs if e["code"] in ("E0204", "E0277", "E0369") and e.get("derive")]
+            # any error inside the expansion of a derive: the type does not get the trait it promises (e.g. a serde attribute that does not
+            # fit the field type makes derive(Serialize) fail with E0308)
+            derive_errs = [e for e in m_errs if e.get("derive")]
             if derive_errs:
                 res.violations.append(Violation(wc.key, "underivable-trait", "%s: a derived trait cannot be implemented: %s" % (wc.id, derive_errs[0]["msg"]), wc.placed,
                                                 expected="traits never appear on a type that cannot derive them", observed=derive_errs[:5], features=feats,
